@@ -78,6 +78,15 @@ def run_lead(ctx) -> RuleResult:
                 and isinstance(mask.comparators[0], ast.Constant) and mask.comparators[0].value == 0
                 and ".coefficients" in _txt(mask.left)
             )
+            if not ok:
+                mtext = _txt(mask)
+                alt = (".astype(bool)" in mtext or "numpy.not_equal(" in mtext or "numpy.asarray(" in mtext and "bool" in mtext) \
+                    and ".coefficients" in mtext
+                known_wrong = isinstance(mask, ast.Compare) and len(mask.ops) == 1 and not isinstance(mask.ops[0], ast.NotEq)
+                if alt:
+                    ok = True
+                elif not known_wrong:
+                    raise AnalysisError(f"{name}: unrecognised overwrite mask {mtext[:80]}")
             result.ob(f"{name}: overwrite exactly where the coefficient is non-zero", ok, module.loc(store.orig), _txt(mask)[:80])
             if not ok:
                 result.add(Finding("R-LEAD", module, name, store.node,
